@@ -8,6 +8,7 @@ package c17
 // Both feed checkCase (oracle_test.go).
 
 import (
+	"fmt"
 	"sort"
 	"strings"
 	"sync"
@@ -80,21 +81,10 @@ var (
 )
 
 func caseKey(c Case) string {
-	var b strings.Builder
-	b.WriteString(c.Entry)
-	b.WriteByte('|')
 	if c.Deep != nil {
-		b.WriteString(c.Deep.Kind)
-		b.WriteByte('|')
-		b.WriteString(depthBucket(c.Deep.Depth))
-		b.WriteByte(byte(c.Deep.Depth))
-		b.WriteByte(byte(c.Deep.Depth >> 8))
-		b.WriteByte(byte(c.Deep.Close))
-		b.WriteByte(byte(c.Deep.Close >> 8))
-	} else {
-		b.Write(c.Src)
+		return fmt.Sprintf("%s|deep|%s|%d|%d", c.Entry, c.Deep.Kind, c.Deep.Depth, c.Deep.Close)
 	}
-	return b.String()
+	return c.Entry + "|" + string(c.Src)
 }
 
 func check(c Case) *core.Violation {
